@@ -39,7 +39,7 @@ pub(crate) trait HeaderUtils {
 
 impl HeaderUtils for HeaderView {
     fn is_parent_of(&self, child: &Self) -> bool {
-        self.number() + 1 == child.number()
+        self.number().checked_add(1) == Some(child.number())
             && (self.is_genesis() || child.epoch().is_successor_of(self.epoch()))
             && self.hash() == child.parent_hash()
     }
